@@ -302,23 +302,92 @@ def split_generics(s):
 _CACHE = {}
 
 
-def load(repo=None):
+# ---------------------------------------------------------------------------------------------------------------------
+# Build configurations.  The source is read under ONE configuration at a time (engines/ast-extract/src/cfgstrip.rs evaluates
+# `#[cfg]`, `#[cfg_attr]` and `cfg!`): the host target as `rustc --print cfg` describes it, the crate's default features, `test`
+# off (the library as its users see it), and `debug_assertions` on (CONFIG["debug_assertions"], the development profile) or
+# off (the release profile).  `current_config()` is what `load()` and `mir.load(True)` follow; the driver (./check) runs the
+# rules once more with debug assertions off when the source distinguishes the two.
+CONFIG = {"debug_assertions": True}
+_HOST_CFG = []
+
+
+def host_cfg():
+    if not _HOST_CFG:
+        try:
+            out = subprocess.run(["rustc", "--print", "cfg"], capture_output=True, text=True, check=True).stdout.split("\n")
+        except Exception:
+            out = ['panic="unwind"', 'target_arch="x86_64"', 'target_endian="little"', 'target_env="gnu"', 'target_family="unix"', 'target_os="linux"', 'target_pointer_width="64"', 'target_vendor="unknown"', "unix"]
+        _HOST_CFG.extend(l.strip() for l in out if l.strip() and l.strip() != "debug_assertions")
+    return list(_HOST_CFG)
+
+
+def default_features(repo):
+    """The closure of the `default` feature of the crate's Cargo.toml (features enable features; `dep:x` and `x/y` are not
+    features of this crate)."""
+    try:
+        txt = open(os.path.join(repo, "Cargo.toml")).read()
+    except OSError:
+        return []
+    m = re.search(r"(?ms)^\[features\]\s*\n(.*?)(?=^\[|\Z)", txt)
+    if not m:
+        return []
+    table = {}
+    for name, body in re.findall(r'(?ms)^\s*"?([A-Za-z0-9_-]+)"?\s*=\s*\[(.*?)\]', m.group(1)):
+        table[name] = re.findall(r'"([^"]+)"', body)
+    on, todo = set(), list(table.get("default", []))
+    while todo:
+        x = todo.pop()
+        if x in on or x.startswith("dep:") or "/" in x:
+            continue
+        on.add(x)
+        todo += table.get(x, [])
+    return sorted(on)
+
+
+def config_args(repo, debug_assertions):
+    lines = host_cfg() + (["debug_assertions"] if debug_assertions else []) + ['feature="%s"' % f_ for f_ in default_features(repo)]
+    out = []
+    for l in lines:
+        out += ["--cfg", l]
+    return out
+
+
+def load(repo=None, debug_assertions=None):
     repo = repo or REPO
-    if repo in _CACHE:
-        return _CACHE[repo]
+    if debug_assertions is None:
+        debug_assertions = CONFIG["debug_assertions"]
+    k = (repo, bool(debug_assertions))
+    from . import rx
+
+    if k in _CACHE:
+        rx.set_consts(_CACHE[k])
+        return _CACHE[k]
     ensure_built()
-    p = subprocess.run([AST_BIN, repo], capture_output=True, text=True)
+    p = subprocess.run([AST_BIN, repo] + config_args(repo, debug_assertions), capture_output=True, text=True)
     if p.returncode != 0:
         raise AnchorMissing("source tree could not be parsed: " + p.stderr.strip())
     f = Facts(json.loads(p.stdout))
+    f.config_name = "debug-assertions=%s" % ("on" if debug_assertions else "off")
     from . import normalise
 
     normalise.apply(f)
-    from . import rx
-
     rx.set_consts(f)
-    _CACHE[repo] = f
+    _CACHE[k] = f
     return f
+
+
+PROFILE_KEYS = ("debug_assertions", "overflow_checks")
+
+
+def cfg_records(facts, tests=False):
+    """The conditional-compilation predicates the extractor evaluated (outside test code unless asked)."""
+    return [r for r in facts.data.get("cfg", []) if tests or not r.get("in_test")]
+
+
+def profile_dependent(facts):
+    """Whether the source (outside test code) distinguishes the development and the release profile by `cfg`."""
+    return any(set(r.get("keys", [])) & set(PROFILE_KEYS) for r in cfg_records(facts))
 
 
 def cargo_lock_version(crate, repo=None):
